@@ -273,6 +273,24 @@ func genLen(t *rapid.T) lenCase {
 	for i := 0; i <= deg; i++ {
 		c.P = append(c.P, Vec2(t, 3, "p"))
 	}
+	if deg == 3 && rapid.IntRange(0, 2).Draw(t, "structured") == 0 {
+		// control polygons with structure a shortcut for "nearly straight" cubics could mistake for degeneracy:
+		// equal handles (an S-curve), opposite handles, one or both handles of length zero, all points colinear
+		b0, b3, h := c.P[0], c.P[3], Vec2(t, 2, "handle")
+		switch rapid.IntRange(0, 4).Draw(t, "structure") {
+		case 0:
+			c.P[1], c.P[2] = b0.Add(h), b3.Sub(h) // b1-b0 == b3-b2
+		case 1:
+			c.P[1], c.P[2] = b0.Add(h), b3.Add(h) // b1-b0 == -(b3-b2)
+		case 2:
+			c.P[1], c.P[2] = b0, b3.Sub(h)
+		case 3:
+			c.P[1], c.P[2] = b0, b3
+		default:
+			d := b3.Sub(b0)
+			c.P[1], c.P[2] = b0.Add(d.Scale(F(t, -1, 2, "s1"))), b0.Add(d.Scale(F(t, -1, 2, "s2")))
+		}
+	}
 	c.Tol = LogF(t, 1e-5, 1e-1, "tol")
 	return c
 }
